@@ -15,8 +15,11 @@ package dlog
 
 import (
 	"context"
+	"os"
 	"sync"
 	"time"
+
+	"github.com/mimecast/dtail/internal/verifrt"
 
 	"github.com/mimecast/dtail/internal/config"
 	"github.com/mimecast/dtail/internal/source"
@@ -56,6 +59,9 @@ func (l *VerifLogger) Resume()                                       {}
 func (l *VerifLogger) Rotate()                                       {}
 func (l *VerifLogger) SupportsColors() bool                          { return l.Colors }
 
+// (log level "warn": what a serverless client runs with by default; natively
+// Info/Debug calls therefore print nothing, like their empty stubs under the engine)
+
 // VerifInstall installs capture loggers as dlog.Client/Server/Common for a
 // process of the given kind and makes sure the config singletons exist.
 func VerifInstall(process source.Source) *VerifLogger {
@@ -68,9 +74,13 @@ func VerifInstall(process source.Source) *VerifLogger {
 	if config.Common == nil {
 		config.Common = &config.CommonConfig{}
 	}
+	if !verifrt.Symbolic() {
+		// natively: the same host name the engine's os.Hostname model returns
+		os.Setenv("DTAIL_HOSTNAME_OVERRIDE", "host")
+	}
 	l := &VerifLogger{}
-	Client = &DLog{logger: l, sourceProcess: process, sourcePackage: source.Client, maxLevel: Info, hostname: "host"}
-	Server = &DLog{logger: l, sourceProcess: process, sourcePackage: source.Server, maxLevel: Info, hostname: "host"}
+	Client = &DLog{logger: l, sourceProcess: process, sourcePackage: source.Client, maxLevel: Warn, hostname: "host"}
+	Server = &DLog{logger: l, sourceProcess: process, sourcePackage: source.Server, maxLevel: Warn, hostname: "host"}
 	Common = Client
 	if process == source.Server {
 		Common = Server
